@@ -24,6 +24,7 @@ static double xs[MAXN], dur[MAXN];
 static int n;
 static const char *mode;
 static int maxlen;
+static int o_huge;
 static const char *ctx = "";
 
 static char g_sig[200];
@@ -208,6 +209,9 @@ static void check_dataset(void)
         if (!ok) {
             goto out;
         }
+    }
+    if (o_huge) {
+        goto out; /* values near the top of the double range: sums of squares overflow by nature, order statistics must not */
     }
     /* histograms: through the public printer (range logic, sanitizer oracle) and through the fill */
     {
@@ -657,6 +661,15 @@ static void run_one(void)
         }
         vx_trace("\n");
     }
+    if (o_huge) {
+        /* the same arrays with values near the top of the double range (0, 5.6e307, 1.1e308, 1.7e308): sorting, copying,
+         * the median and the five-number summary are order statistics and must still be right */
+        for (int i = 0; i < n; i++) {
+            xs[i] *= 5.6e307;
+        }
+        check_dataset();
+        return;
+    }
     if (strcmp(mode, "ts")) {
         check_dataset();
     }
@@ -669,6 +682,7 @@ static void ginit(void)
 {
     mode = vx_opt("mode", "small");
     maxlen = (int)vx_opt_int("maxlen", 5);
+    o_huge = (int)vx_opt_int("huge", 0);
     devnull = fopen("/dev/null", "w");
     cmb_logger_flags_off(0x7FFFFFFFu);
 }
